@@ -9,6 +9,7 @@ package main
 // `T.f>sink` requires the field to reach that particular sink (e.g. the length-prefixed writer).
 
 import (
+	"go/token"
 	"fmt"
 	"go/types"
 	"sort"
@@ -16,6 +17,72 @@ import (
 
 	"golang.org/x/tools/go/ssa"
 )
+
+// addrRoots collects where the memory an address points into comes from: "param:<name>", "alloc", "call:<name>",
+// "global:<name>". Only address derivation is followed (element/field/slice of, the first operand of append, loads of
+// local variables), not the values stored there.
+func addrRoots(v ssa.Value, seen map[ssa.Value]bool, out map[string]bool, depth int) {
+	if v == nil || seen[v] || depth > 40 {
+		return
+	}
+	seen[v] = true
+	rec := func(x ssa.Value) { addrRoots(x, seen, out, depth+1) }
+	switch x := v.(type) {
+	case *ssa.Parameter:
+		out["param:"+x.Name()] = true
+	case *ssa.FreeVar:
+		out["param:"+x.Name()] = true
+	case *ssa.Global:
+		out["global:"+x.Name()] = true
+	case *ssa.IndexAddr:
+		rec(x.X)
+	case *ssa.FieldAddr:
+		rec(x.X)
+	case *ssa.Slice:
+		rec(x.X)
+	case *ssa.ChangeType:
+		rec(x.X)
+	case *ssa.Convert:
+		rec(x.X)
+	case *ssa.Phi:
+		for _, e := range x.Edges {
+			rec(e)
+		}
+	case *ssa.Extract:
+		rec(x.Tuple)
+	case *ssa.MakeSlice, *ssa.MakeMap:
+		out["alloc"] = true
+	case *ssa.UnOp:
+		if x.Op == token.MUL {
+			// a pointer/slice loaded from a local variable: whatever was stored into it; from anywhere else: that place
+			if al, ok := x.X.(*ssa.Alloc); ok {
+				for _, r := range *al.Referrers() {
+					if st, ok := r.(*ssa.Store); ok && st.Addr == ssa.Value(al) {
+						rec(st.Val)
+					}
+				}
+			} else {
+				rec(x.X)
+			}
+		}
+	case *ssa.Alloc:
+		out["alloc"] = true
+	case *ssa.Call:
+		if b, ok := x.Call.Value.(*ssa.Builtin); ok && b.Name() == "append" && len(x.Call.Args) > 0 {
+			// the result aliases the first operand only if it had spare capacity; a freshly made first operand
+			// ([]T{} / nil) never aliases the second
+			rec(x.Call.Args[0])
+			return
+		}
+		if callee := x.Call.StaticCallee(); callee != nil {
+			out["call:"+callee.Name()] = true
+		} else {
+			out["call:?"] = true
+		}
+	case *ssa.Const:
+		out["alloc"] = true
+	}
+}
 
 // fieldsInCone collects "Type.field" names read in the backward data cone of v.
 func fieldsInCone(v ssa.Value, seen map[ssa.Value]bool, out map[string]bool, depth int) {
@@ -83,6 +150,14 @@ func fieldsInCone(v ssa.Value, seen map[ssa.Value]bool, out map[string]bool, dep
 	case *ssa.Extract:
 		rec(x.Tuple)
 	case *ssa.TypeAssert:
+		// a type test reads "which dynamic type": recorded as type:<Name>
+		t := x.AssertedType
+		if pt, ok := t.(*types.Pointer); ok {
+			t = pt.Elem()
+		}
+		if n, ok := t.(*types.Named); ok {
+			out["type:"+n.Obj().Name()] = true
+		}
 		rec(x.X)
 	case *ssa.BinOp:
 		rec(x.X)
@@ -406,6 +481,18 @@ func runUnguardedRules(p *Program, id string) ([]*Gen, []string) {
 							if cone["param:"+vf] {
 								o.Pre = "sat"
 								o.Model = "the stored value " + valuePath(st.Val) + " is computed from parameter " + vf
+							}
+						}
+					}
+					// forbidden target of a store (target-not-from=<parameter>): the written location must not be memory
+					// reached from the parameter (a write through it is visible to the caller)
+					if tf := kv["target-not-from"]; tf != "" {
+						if st, isStore := in.(*ssa.Store); isStore {
+							roots := map[string]bool{}
+							addrRoots(st.Addr, map[ssa.Value]bool{}, roots, 0)
+							if roots["param:"+tf] {
+								o.Pre = "sat"
+								o.Model = "the store writes " + valuePath(st.Addr) + ", memory reached from parameter " + tf
 							}
 						}
 					}
